@@ -3,7 +3,7 @@
 //! reader written from doc/format.md checks the archive, and the Lean predicate `Conforms`
 //! (the same clauses, the one the theorems are about) is evaluated on the real state.
 use crate::absarch::blake_hex;
-use crate::compare::Session;
+use crate::compare::{CmpOpts, Session, compare_run, compare_state, parse_answer};
 use crate::hist::*;
 use crate::real::band_name;
 use crate::report::Report;
@@ -221,6 +221,7 @@ fn source_changes_during_backup(report: &mut Report) {
                     _ => std::fs::write(&victim, vec![b'B'; 100]).unwrap(),
                 }
             });
+            let obs_at_listing = observe(&src);
             let r = crate::real::with_change_hook(hook, || crate::real::real_backup(&arch, &src, &p, crate::icept::IceptConfig::default()));
             let case = json!({"directed": "source changes during the backup", "layout": capname, "changing_file": victim_name, "change": mdesc});
             report.case(&format!("source-changes/{capname}/{mname}"), true);
@@ -236,6 +237,41 @@ fn source_changes_during_backup(report: &mut Report) {
             let (state, _) = crate::absarch::abstract_archive(&arch);
             for (sig, what) in format_violations(&state, &BTreeMap::new()) {
                 report.oracle_fail(&sig, case.clone(), "after a backup during which a source file changed, the archive does not conform to the documented format", what);
+            }
+            // the model has `st_size` and the bytes a read returns as separate fields (C13's theorems assume nothing
+            // about their agreement): metadata and size as listed, content as it is when read
+            if *mname != "vanishes" {
+                let mut at_read = obs_at_listing.clone();
+                let now = observe(&src);
+                for o in at_read.iter_mut() {
+                    if o.apath == format!("/{victim_name}") {
+                        o.content = now.iter().find(|n| n.apath == o.apath).map(|n| n.content.clone()).unwrap_or_default();
+                    }
+                }
+                let mut lines = src_lines(&at_read);
+                for l in lines.iter_mut() {
+                    // keep the size field at its listing-time value (100)
+                    let f: Vec<&str> = l.split(' ').collect();
+                    if f[1] == hex::encode(format!("/{victim_name}")) {
+                        let mut g: Vec<String> = f.iter().map(|x| x.to_string()).collect();
+                        g[7] = "100".into();
+                        *l = g.join(" ");
+                    }
+                }
+                let mut session = Session::new();
+                let (empty, _) = {
+                    let fresh = work.path().join("fresh");
+                    crate::real::create_archive(&fresh);
+                    crate::absarch::abstract_archive(&fresh)
+                };
+                session.load_src(&lines);
+                session.load_store(&empty);
+                let i_b = session.push(format!("backup {} -", p.model_args()));
+                let i_d = session.push("dump".into());
+                let answers = session.run();
+                compare_run(report, "source-change:backup", &case, &r, &parse_answer(&answers[i_b]), &CmpOpts::default());
+                compare_state(report, "source-change:backup", &case, &state, &answers[i_d]);
+                report.hit("directed:source-changes:compared-with-model");
             }
             let v = crate::real::real_validate(&arch, false, crate::icept::IceptConfig::default());
             if v.events.iter().any(|e| e.starts_with("event error")) {
